@@ -283,7 +283,16 @@ def explore(repo, body, typed=True, max_paths=512, intercept=None):
             out.append((ch, sc, None, r))
         if len(out) > max_paths:
             raise AnalysisError(f'more than {max_paths} paths in one scenario')
-    return out
+    return _Paths(out)
+
+
+class _Paths(list):
+    """the explored paths; iterating activates the analysis context of each path (rules evaluated on a path must see ITS size facts and decomposition registry)"""
+
+    def __iter__(self):
+        for item in list.__iter__(self):
+            A.set_ctx(item[1].ctx)
+            yield item
 
 
 def tt_invariant(sc, obj, what=''):
